@@ -215,6 +215,17 @@ def dynamic_members(sig):
             return True
         if isinstance(n, ast.Dict) and any(k is None for k in n.keys):
             return True
+        if isinstance(n, (ast.DictComp, ast.ListComp, ast.GeneratorExp)) and any(
+                isinstance(x, ast.Call) and isinstance(x.func, ast.Name) and x.func.id in ("In", "Out") or
+                isinstance(x, ast.Name) and x.id in ("In", "Out") for x in ast.walk(n)):
+            return True                                 # members produced by a comprehension over a table
+        if isinstance(n, ast.For) and any(isinstance(x, ast.Name) and x.id in ("In", "Out") for x in ast.walk(n)):
+            return True
+    # a literal table of (name, flow, shape...) rows that a comprehension turns into members
+    for n in ast.walk(init.node):
+        if isinstance(n, (ast.Tuple, ast.List)) and len(n.elts) >= 2 and all(isinstance(e, (ast.Tuple, ast.List)) for e in n.elts) and \
+                any(isinstance(x, ast.Name) and x.id in ("In", "Out") for x in ast.walk(n)):
+            return True
     return False
 
 
